@@ -256,38 +256,55 @@ def split_blocks(ops_lines):
     return cases
 
 
-def run_pair(stream, cases, variant="san", timeout=900, jobs=None):
-    """Run harness and model on the same cases (list of list of lines). Both programs answer every
-    'case' line with a '== case ...' header, which is used to align the outputs.
-    Returns list of per-case dicts {ops, c, m, rc_c, rc_m, err}."""
-    exe = build_harness(variant)
-    drv = driver_path()
+def _run_cases(cmd, chunk, timeout, env_extra=None):
+    """run one program over a list of cases; if it dies, attribute the death to the case whose
+    '== case' header was the last one printed and carry on with the cases after it"""
+    out = []
+    i = 0
+    while i < len(chunk):
+        part = chunk[i:]
+        text = "\n".join("\n".join(c) for c in part) + "\n"
+        rc, so, se = run_prog(cmd, text, timeout, env_extra)
+        blocks = split_outputs(so)
+        if rc == 0 and len(blocks) >= len(part):
+            out += [(blocks[k], 0, "") for k in range(len(part))]
+            break
+        # died (or printed too little): blocks[0..k-1] complete, case k is the one that died
+        k = max(0, len(blocks) - 1) if rc != 0 else len(blocks)
+        for j in range(min(k, len(part))):
+            out.append((blocks[j], 0, ""))
+        if k < len(part):
+            partial = blocks[k] if k < len(blocks) else None
+            out.append((partial, rc if rc != 0 else -998, se[-3000:] or "no output for this case"))
+        i += k + 1
+    return out
+
+
+def _fan(cmd, cases, timeout, jobs, env_extra=None):
     jobs = jobs or min(NCPU, max(1, len(cases)))
     chunks = [cases[i::jobs] for i in range(jobs)]
-
-    def work(chunk):
-        if not chunk:
-            return []
-        text = "\n".join("\n".join(c) for c in chunk) + "\n"
-        rc_c, out_c, err_c = run_prog([exe, stream], text, timeout)
-        rc_m, out_m, err_m = run_prog([drv, stream], text, timeout)
-        bc = split_outputs(out_c)
-        bm = split_outputs(out_m)
-        res = []
-        for i, c in enumerate(chunk):
-            res.append({"ops": c, "c": bc[i] if i < len(bc) else None, "m": bm[i] if i < len(bm) else None,
-                        "rc_c": rc_c, "rc_m": rc_m,
-                        "err_c": err_c[-3000:] if (rc_c != 0 and i >= len(bc) - 1) else "",
-                        "err_m": err_m[-3000:] if (rc_m != 0 and i >= len(bm) - 1) else ""})
-        return res
     with ThreadPoolExecutor(jobs) as ex:
-        parts = list(ex.map(work, chunks))
-    # restore original order
+        parts = list(ex.map(lambda ch: _run_cases(cmd, ch, timeout, env_extra) if ch else [], chunks))
     out = [None] * len(cases)
     for j, part in enumerate(parts):
         for k, r in enumerate(part):
             out[j + k * jobs] = r
     return out
+
+
+def run_pair(stream, cases, variant="san", timeout=900, jobs=None):
+    """Run harness and model on the same cases (list of list of lines). Both programs answer every
+    'case' line with a '== case ...' header, which is used to align the outputs.
+    Returns list of per-case dicts {ops, c, m, rc_c, rc_m, err_c, err_m}."""
+    exe = build_harness(variant)
+    drv = driver_path()
+    rc_ = _fan([exe, stream], cases, timeout, jobs)
+    rm_ = _fan([drv, stream], cases, timeout, jobs)
+    res = []
+    for c, (bc, rcc, ec), (bm, rcm, em) in zip(cases, rc_, rm_):
+        res.append({"ops": c, "c": bc if rcc == 0 else None, "c_partial": bc, "m": bm if rcm == 0 else None,
+                    "rc_c": rcc, "rc_m": rcm, "err_c": ec, "err_m": em})
+    return res
 
 
 def split_outputs(text):
@@ -310,24 +327,9 @@ def run_model_only(stream, cases, timeout=900, jobs=None):
 
 def run_harness_only(stream, cases, variant="san", timeout=900, jobs=None, env_extra=None, exe=None, key="c"):
     exe = exe or build_harness(variant)
-    jobs = jobs or min(NCPU, max(1, len(cases)))
-    chunks = [cases[i::jobs] for i in range(jobs)]
-
-    def work(chunk):
-        if not chunk:
-            return []
-        text = "\n".join("\n".join(c) for c in chunk) + "\n"
-        rc, out, err = run_prog([exe, stream], text, timeout, env_extra)
-        b = split_outputs(out)
-        return [{"ops": c, key: b[i] if i < len(b) else None, "rc_" + key: rc,
-                 "err_" + key: err[-3000:] if (rc != 0 and i >= len(b) - 1) else ""} for i, c in enumerate(chunk)]
-    with ThreadPoolExecutor(jobs) as ex:
-        parts = list(ex.map(work, chunks))
-    out = [None] * len(cases)
-    for j, part in enumerate(parts):
-        for k, r in enumerate(part):
-            out[j + k * jobs] = r
-    return out
+    r_ = _fan([exe, stream], cases, timeout, jobs, env_extra)
+    return [{"ops": c, key: b if rc == 0 else None, key + "_partial": b, "rc_" + key: rc, "err_" + key: e}
+            for c, (b, rc, e) in zip(cases, r_)]
 
 
 # ----------------------------------------------------------------------------------------------
